@@ -12,7 +12,8 @@
 (*   "sync"      socket.connect() fails synchronously                      *)
 (*   "sockerr"   socket.socket(af) raises OSError (family unsupported, ...) *)
 (*   "streamerr" IOStream(socket) raises OSError                            *)
-(* All four failures mean "this address failed": the connector goes on.    *)
+(*   "binderr"   binding the requested source address fails (socket exists) *)
+(* All these failures mean "this address failed": the connector goes on.    *)
 (*                                                                         *)
 (* When the secondary family is started after a failure (at once, or at    *)
 (* the 0.3 s timer) is not part of the property: both are allowed.         *)
